@@ -2,12 +2,15 @@ package main
 
 import (
 	"fmt"
+	"io"
 	"os"
 	"strings"
 	"sync"
 	"time"
 
+	frugal "github.com/Workiva/frugal/lib/go"
 	"github.com/apache/thrift/lib/go/thrift"
+	"github.com/sirupsen/logrus"
 )
 
 // Targeted schedules: interleavings of Close / Open / a peer failure with the
@@ -20,6 +23,8 @@ var schedules = []string{
 	"close-open-before-old-reader-exits",
 	"failure-between-queued-close-and-open",
 	"failed-close-takes-token-back-before-reader-looks",
+	"close-while-write-stalled",
+	"peer-failure-while-write-stalled",
 	"two-opens-during-slow-connect",
 	"three-opens-during-slow-connect",
 	"monitor-reopen-and-application-open-during-slow-connect",
@@ -29,6 +34,59 @@ var schedules = []string{
 // run one at a time, after the parallel phases.
 var serialSchedules = []string{
 	"close-open-while-old-reader-is-between-frames",
+	"reopened-stream-dies-before-runner-sanity-check",
+}
+
+// logGate parks the goroutine that logs the monitor runner's "re-opened"
+// line while armed (installed through the public SetLogger during the serial
+// phase only; it pins a schedule, no verdict reads log text).
+type logGate struct {
+	mu      sync.Mutex
+	gate    chan struct{}
+	reached int
+}
+
+var reopenLogGate logGate
+
+func (l *logGate) Levels() []logrus.Level { return []logrus.Level{logrus.InfoLevel} }
+
+func (l *logGate) Fire(e *logrus.Entry) error {
+	if !strings.Contains(e.Message, "re-opened") {
+		return nil
+	}
+	l.mu.Lock()
+	g := l.gate
+	if g != nil {
+		l.reached++
+		l.gate = nil // one shot
+	}
+	l.mu.Unlock()
+	if g != nil {
+		<-g
+	}
+	return nil
+}
+
+func (l *logGate) arm() chan struct{} {
+	l.mu.Lock()
+	defer l.mu.Unlock()
+	l.gate = make(chan struct{})
+	l.reached = 0
+	return l.gate
+}
+
+func (l *logGate) hits() int {
+	l.mu.Lock()
+	defer l.mu.Unlock()
+	return l.reached
+}
+
+func installLogGate() {
+	lg := logrus.New()
+	lg.SetOutput(io.Discard)
+	lg.SetLevel(logrus.InfoLevel)
+	lg.AddHook(&reopenLogGate)
+	frugal.SetLogger(lg)
 }
 
 // frameGate parks the read loop that reaches the yield point
@@ -195,6 +253,115 @@ func (d *driver) runSchedule() {
 			return
 		}
 		d.steps("IRGWRI")
+
+	case "close-while-write-stalled", "peer-failure-while-write-stalled":
+		// The peer has stopped reading: a Write of the stream neither
+		// completes nor fails.  The request times out; Close() / IsOpen() from
+		// other goroutines, or the read loop's own close after a peer failure,
+		// must still complete.
+		d.steps("OR")
+		if d.status != stOK {
+			return
+		}
+		d.syncReader()
+		d.blockW = make(chan struct{})
+		d.st.SetBlockWrite(d.blockW)
+		_, _, _, _, w0, _ := d.st.Snapshot()
+		ctx, frame, _ := prepRequest([]byte("stalled"))
+		_, reqDone := d.launch(ctx, frame, 40*time.Millisecond)
+		if !pollUntil(func() (bool, bool) { _, _, _, _, w, _ := d.st.Snapshot(); return w > w0, true }) {
+			d.inconclusive("the stalled write was not reached within 15 s")
+			return
+		}
+		d.logf("a Write of the stream is stalled")
+		if !d.await("Request with a stalled write (times out)", waitChan(reqDone), d.deadlockCrit("Request", false)) {
+			return
+		}
+		d.noSettle = true
+		if d.spec.Sched == "close-while-write-stalled" {
+			d.steps("IC")
+		} else {
+			d.steps("IX")
+		}
+		d.noSettle = false
+		if d.status != stOK {
+			return
+		}
+		if d.blockW != nil {
+			d.st.SetBlockWrite(nil)
+			close(d.blockW)
+			d.blockW = nil
+		}
+		d.steps("WRI")
+
+	case "reopened-stream-dies-before-runner-sanity-check":
+		// Two failures in a row: the stream of the reopened session dies at
+		// once and its read loop has finished the close before the monitor
+		// runner gets from Open() to its IsOpen() sanity check.  Every failure
+		// must still be notified and reopened within the policy, and
+		// OnReopenFailed is never called while the transport is open.
+		if d.spec.Pol.Max < 2 || !d.spec.Pol.Monitor {
+			return
+		}
+		addFault(&d.st.FailRead, 2, mkErr(errResetPlain)) // the first Read of session 2
+		d.steps("O")
+		if d.status != stOK {
+			return
+		}
+		gate := reopenLogGate.arm()
+		released := false
+		defer func() {
+			if !released {
+				close(gate)
+			}
+		}()
+		d.m.Armed = 0
+		d.st.armOpenFailures(0)
+		mark := d.st.snap().readErrs
+		d.noteErrFed()
+		d.logf("peer: error (reset-plain)")
+		d.st.FeedError(mkErr(errResetPlain))
+		c, ok := d.awaitCause("error", mark)
+		if !ok {
+			return
+		}
+		d.logf("Closed() <- %s", errText(c.v))
+		d.lastEndedBy = "readloop"
+		d.m.Open = false
+		if _, ok := d.expectEvent("uncleanly"); !ok {
+			return
+		}
+		if !pollUntil(func() (bool, bool) { return reopenLogGate.hits() == 1, true }) {
+			d.h.run.Add("hook_not_reached", 1)
+			d.inconclusive("the runner's re-opened log line was not reached: the schedule cannot be forced (reduced coverage)")
+			return
+		}
+		d.h.run.Add("log_gate_reached", 1)
+		// session 2 exists and dies at once
+		d.m.Open = true
+		d.newSession()
+		c2, ok := d.awaitCause("error", 0)
+		if !ok {
+			return
+		}
+		d.logf("session 2 died at once: Closed() <- %s; the runner has not yet done its IsOpen check", errText(c2.v))
+		d.m.Open = false
+		released = true
+		close(gate)
+		for _, k := range []string{"reopenSucceeded", "uncleanly", "reopenSucceeded"} {
+			e, ok := d.expectEvent(k)
+			if !ok {
+				return
+			}
+			if e.Kind == "reopenFailed" && e.OpenAtCallback {
+				d.violate("C15:OnReopenFailed-while-open", "OnReopenFailed was called while the transport is open", nil)
+				return
+			}
+		}
+		d.m.Open = true
+		d.newSession()
+		d.openMark = d.st.snap().openCalls
+		d.steps("IRXIRI") // a healthy period, then a later failure that must be notified and reopened again
 
 	case "failed-close-takes-token-back-before-reader-looks":
 		// The underlying Close tears the stream down and fails; the read loop
